@@ -174,7 +174,9 @@ func checkMatch(r *fw.Run, l *fw.Local, globs, target string) {
 
 var sigma1 = []string{"a", "Z", ".", "/", "-", "~", "_", "+", "1", "0", "v"}
 
-var elems = []string{"a.b", "con", "CON", "cOn.txt", "nul.a.b", "com1", "com0", "lpt9", "LPT1.x", "a~1", "a~1.b", "a.b~1", "a~b", "~1", "a~", ".a", "a.", "..", "a..b", "v2", "v1", "v0", "v02", "v2.0", "x.v1", "v", "v10", "-a", "a+", "x y", "é", "gopkg.in"}
+var elems = []string{"a.b", "con", "CON", "cOn.txt", "nul.a.b", "com1", "com0", "lpt9", "LPT1.x", "a~1", "a~1.b", "a.b~1", "a~b", "~1", "a~", ".a", "a.", "..", "a..b", "v2", "v1", "v0", "v02", "v2.0", "x.v1", "v", "v10", "-a", "a+", "x y", "é", "gopkg.in",
+	// gopkg.in's conventions on other hosts (they have no meaning there), and near misses of /vN
+	"v2-unstable", "v0-unstable", "v1.2-unstable", "x.v2-unstable", "v2-", "v2+x", "V2"}
 
 var gopkgSuffix = []string{".v0", ".v1", ".v2", ".v01", ".v", ".v1-unstable", ".v0-unstable", ".v1.2", "-unstable", "/v2", ".v10", ".v1-unstable/x", ".v1/x", "v1", ".V1", ".v1-Unstable"}
 
